@@ -11,6 +11,8 @@ from pymemcache.exceptions import MemcacheClientError, MemcacheServerError
 
 PROPERTY = "C05"
 LEVEL = "exploration"
+# parts repeated in a child interpreter started with -O and with warnings turned into errors (vlib/runner.py, MODES)
+MODE_PARTS = {"OW": ['exhaustive-short']}
 RULE = ("history = client kind x configuration {prefix, default_noreply} x a per-step choice of spelling the keys as str or as bytes (the same item either way; multi-key answers are keyed by that call's spelling) x 1-25 steps over a universe of 3 keys (with unicode keys enabled, three more: a precomposed and a combining spelling of the same text - two different keys - and a compatibility character): set/add/"
         "replace/append/prepend (noreply unset/True/False, expiry in {0,-1,1,2,5,30 days, 30 days+1, now+3}), cas with "
         "a token that is the last gets result for the key, or bogus; get/gets/get_many/gets_many/gat/gats; touch; "
